@@ -723,3 +723,52 @@ def c05_shape_compat(R):
                             except Exception as e:
                                 print('accepted; raised', type(e).__name__, e); print('REPLAY-CONFIRMED')
                         """, src=bad[0][2], opt=bad[0][1], compatible=compatible, sample=sample, want=_SHAPE_TYPES[tname][1]))
+
+
+@family("C05.function-end", props=["C05"], functions=["nsl.VM::ExecutionContext.__Execute", "nsl.VM::VirtualMachine._Invoke", "nsl.passes.LowerToIR::LowerToIRVisitor.v_Function"],
+        assumptions=["function shapes enumerated: result type {int, float, float2} x body {empty, return inside an if without else, return inside a loop only, if/else returning on both "
+                     "branches (control: never falls off)}; the caller uses the result as a value of the declared type; inputs chosen so that the end of the body is reached"])
+def c05_function_end(R):
+    """A function with a result type whose body can reach its end without `return`: the program is rejected, or the call yields a value of the
+    declared type -- the caller's next operator must not meet `None` (TypeError, an internal error in the sense of C05)."""
+    from nsl import LinearIR, VM
+    bodies = {"empty": "", "if-without-else": "if (a > 0) { return {v}; }", "loop-only": "for (int i = 0; i < a; ++i) { return {v}; }",
+              "if-else-both": "if (a > 0) { return {v}; } else { return {v}; }"}
+    for rt, v, use, shape in (("int", "1", "(g(a) + 1)", ("s",)), ("float", "1.5", "(g(a) * 2.0)", ("s",)), ("float2", "float2(1.0, 2.0)", "(g(a) + g(a))", ("v", 2))):
+        for bname, body in bodies.items():
+            src = f"function g(int a) -> {rt} {{ {body.replace('{v}', v)} }}\nexport function f(int a) -> {rt} {{ return {use}; }}"
+            bad = None
+            for opt in (False, True):
+                r, exc = compile_quiet(src, {"optimize": opt})
+                if r is None:
+                    if bname == "if-else-both":
+                        bad = bad or f"rejected ({type(exc).__name__}: {str(exc)[:80]}) although every path returns"
+                    continue
+                try:
+                    lk = LinearIR.Linker()
+                    lk.AddModule(r.IRModule)
+                    got = VM.VirtualMachine(lk.Link()).Invoke("f", a=0)
+                    if not _has_shape(got, shape):
+                        bad = bad or f"accepted; f(0) returned {got!r}, which is not a {rt}"
+                except BaseException as e:
+                    if isinstance(e, KeyboardInterrupt):
+                        raise
+                    bad = bad or f"accepted; f(0) raised {type(e).__name__}: {str(e)[:100]}"
+            R.check(f"C05.function-end[{rt},{bname}]", "nsl.VM::VirtualMachine._Invoke", bad is None, detail=f"{bad}\n{src}",
+                    replay=script("""
+                        import io, contextlib
+                        from nsl import Compiler, LinearIR, VM
+                        src = {{src}}
+                        try:
+                            with contextlib.redirect_stdout(io.StringIO()):
+                                r = Compiler.Compiler().Compile(src)
+                        except BaseException as e:
+                            r = None; print('rejected:', type(e).__name__, str(e)[:100])
+                        print(src)
+                        if r is not None:
+                            lk = LinearIR.Linker(); lk.AddModule(r.IRModule)
+                            try:
+                                print('f(0) =', VM.VirtualMachine(lk.Link()).Invoke('f', a=0))
+                            except Exception as e:
+                                print('accepted; raised', type(e).__name__, e); print('REPLAY-CONFIRMED')
+                        """, src=src))
